@@ -108,6 +108,8 @@ def strategy(tier):
         g = case["graph"]
         n = len(g)
         kind = draw(st.sampled_from(["relabel", "relabel", "reorder", "swap", "scale", "scale", "translate", "all"]))
+        if case.get("gen") == "fork":
+            kind = draw(st.sampled_from(["reorder", "reorder", "all", "relabel"]))  # tied branches: the listing order is what matters
         if kind == "relabel" and type(g[0][0]) is int and draw(st.booleans()):
             # start from string labels so that the relabelling goes to integers (including 0)
             names = draw(gen.labels(n, "str"))
